@@ -14,7 +14,7 @@ META = {
     "level": "model_checking",
     "technique": "TLA+ spec Legacy (field relation old theory/operator runcard -> TheoryCard/OperatorCard transcribed from eko.io.runcards.Legacy, default flow through Atlas.tla; predicates C41_Order, C41_Matching, C41_Masses, C41_Couplings, C41_Flow, C41_Configs written from the meaning of the legacy keys); TLC enumerates legacy value combinations; each is materialised as a synthetic legacy runcard, converted by the real Legacy class, projected back and judged by TLC (LegacyTrace)",
     "text": "B1: TLC checks the transcribed relation against the predicates for every combination inside four key groups (PTO x QED x PTO_matching x HQ x ev_op_max_order; ModEv x ModSV x backward_inversion x use_fhmruvv x n3lo; alphaqed x alphaem x Qedref x nfref; nf0 x Q0 position x grid key x grid positions incl. points exactly on a matching scale), including the agreement of the default flow (digitize transcription) with its independent definition; a shifted PTO transcription must be refuted. B2/B3: every TLC state plus seeded full random combinations become concrete legacy runcards (random masses, matching ratios, scales realising the token order), are converted with Legacy(...).new_theory/new_operator, and TLC evaluates the predicates on the projected new cards; copied fields are compared value by value.",
-    "note": "Runcard part of the property only: the v1/v2 archive upgrade (eko/io/v1.py, v2.py) is not bound (the repository's legacy archives in tests/data are emptied in this sandbox). Matching scales are sorted (default flow is undefined otherwise). Squared-scale keys (Q2grid, mu2grid) are exercised strictly between matching scales, linear mugrid also exactly on them. ev_op_max_order is an integer in legacy cards.",
+    "note": "Archives: the repository's legacy archives in tests/data are emptied in this sandbox, so v1/v2 archives are synthesised: a current archive is written through the real store and its YAML members are rewritten by the inverse of the documented patches (spec ArchiveUpgrade: which fields an old layout can express); EKO.read must give back every expressible field, the evolution points and bitwise operators. Matching scales are sorted (default flow is undefined otherwise). Squared-scale keys (Q2grid, mu2grid) are exercised strictly between matching scales, linear mugrid also exactly on them. ev_op_max_order is an integer in legacy cards.",
     "design_ref": "4.10, 5 C41",
     "rule": "instance = combination of legacy field values (tokens) materialised with seeded masses/ratios/scales; distinct by the token combination; non-trivial = all",
 }
@@ -79,3 +79,31 @@ def run(chk):
     chk.note("conformance", {"as transcribed": n - len(nconf), "differs": len(nconf)})
     if nconf:
         chk.diag(f"conformance: {len(nconf)} conversions differ from the transcription, e.g. {recs[nconf[0]]}")
+
+    # ---- archives written with data versions 1 and 2 -----------------------------------------
+    import multiprocessing as _mp
+
+    from harness.drivers import oldarchive
+
+    n = 600 if chk.thorough() else 80
+    seeds = [chk.rng.randrange(2**31) for _ in range(n)]
+    with _mp.get_context("fork").Pool(16) as pool:
+        arecs = pool.map(oldarchive.experiment, seeds, chunksize=4)
+    for ar in arecs:
+        chk.count(1, ("archive", ar["seed"]), nontrivial=ar["exc"] == "")
+    chk.sample({"archive_version": arecs[0]["v"], "fields_equal": arecs[0]["same"]})
+    ra = chk.tlc("ArchiveUpgradeTrace", "ArchiveUpgradeTrace.cfg", trace=arecs, workers=1, label="synthetic v1/v2 archives read back")
+    if ra.violated or not ra.completed:
+        raise MachineryError(f"ArchiveUpgradeTrace not accepted: {ra.out[-1500:]}")
+    chk.cov["traces_validated_against_impl"] += len(arecs)
+    seen_a = set()
+    for t in ra.printed("BAD"):
+        ar = arecs[t[1] - 1]
+        fp = f"{t[2]} data-version={ar['v']}"
+        if t[2].startswith("C41:") and fp not in seen_a:
+            seen_a.add(fp)
+            chk.violation(fp, f"{t[2]}: archive in the data-version {ar['v']} layout (seed {ar['seed']}): equal fields {ar['same']} {ar['exc']}", ar)
+    bad_a = [dict(arecs[0], same=[f for f in arecs[0]["same"] if f != "operators"])]
+    rb = chk.tlc("ArchiveUpgradeTrace", "ArchiveUpgradeTrace.cfg", trace=bad_a, workers=1, label="corrupted archive record (must be rejected)")
+    if not [t for t in rb.printed("BAD") if t[2].startswith("C41:")]:
+        raise MachineryError("binding demonstration (archives) failed")
